@@ -133,7 +133,9 @@ impl BuildOptimiser {
             kt_ratio,
             max_step_size: self.max_step_size,
             steps: self.steps,
-            inner_steps: u64::min(self.inner_steps, self.steps),
+            // An inner loop has at least one step, a value of zero would otherwise result in a
+            // division by zero when working out the number of loops.
+            inner_steps: u64::max(u64::min(self.inner_steps, self.steps), 1),
             seed,
             convergence: self.convergence,
         }
